@@ -30,7 +30,7 @@ ASSUMPTIONS = [
 ]
 
 SPECIAL = ['names', 'names', 'names', 'rebindG', 'rebindG', 'modglobal', 'modglobal', 'say', 'say', 'usename',
-           'defclass', 'useclass', 'modglobal', 'trysibling', 'modsay', 'modsay']
+           'defclass', 'useclass', 'modglobal', 'trysibling', 'modsay', 'modsay', 'annot', 'annot', 'keepglobal', 'writekept', 'writekept']
 TRAILERS = [[['+', 'SKIP', None]], [['+', 'REQUIRES', 'env:SIM_NOT_SET']], [['+', 'REQUIRES', '--sim-absent']],
             [['-', 'REPORT_UDIFF', None]], [['+', 'IGNORE_WANT', None]], [['-', 'ELLIPSIS', None]],
             [['-', 'NORMALIZE_WHITESPACE', None]], [['+', 'IGNORE_EXCEPTION_DETAIL', None]]]
@@ -91,6 +91,11 @@ def add_special_steps(rng, dt, pfx, modname, others=()):
         steps.insert(rng.randint(0, len(steps)), {'i': b4, 'form': 'loopval', 'pts': [], 'ps2': rng.random() < 0.5,
                                                   'sep': 'blank', 'want': 'loopecho'})
         steps[0]['sep'] = 'none'
+    if rng.random() < 0.12:
+        # this doctest switches a compile-time feature on for itself
+        steps.insert(0, {'i': base + 50, 'form': 'futureimport', 'pts': [], 'ps2': False, 'sep': 'none'})
+        if len(steps) > 1:
+            steps[1]['sep'] = rng.choice(['none', 'blank'])
     if rng.random() < 0.2:
         # everything depends on something in the environment that is there at first
         steps.insert(0, {'i': base + 40, 'form': 'directive', 'pts': [], 'ps2': False, 'sep': 'none',
